@@ -162,7 +162,7 @@ theorem lookup_arrived_attributes (cls : Str) (A : Val) (attrs : Dict) :
 /-- `make_exception` on an arrived exception dict rebuilds the exception: the constructor is called with the
     arguments (list or tuple alike), every attribute is set again -/
 theorem makeException_arrived (K : ClientEnv) (q cls : Str) (A : Val) (args : List Val) (attrs : Dict)
-    (hA : A = .list args ∨ A = .tuple args) (hctor : K.ctor q args = .ok args) (hnd : (keys attrs).Nodup) :
+    (hA : A = .list args ∨ A = .tuple args) (hctor : K.ctor q args = .ok (q, args)) (hnd : (keys attrs).Nodup) :
     makeException K q (arrivedDict cls A attrs) = .ok (.exc ⟨q, args, attrs⟩) := by
   unfold makeException
   rw [lookup_arrived_args, lookup_arrived_attributes]
@@ -335,7 +335,7 @@ theorem dictFuel_eq : dictFuel = 7 + 1 := rfl
 
 theorem recreate_arrived (K : ClientEnv) (cls : Str) (A : Val) (args : List Val) (attrs : Dict)
     (hA : A = .list args ∨ A = .tuple args) (hres : resolves K.names cls = some cls)
-    (hctor : K.ctor cls args = .ok args) (hnd : (keys attrs).Nodup) :
+    (hctor : K.ctor cls args = .ok (cls, args)) (hnd : (keys attrs).Nodup) :
     recreateItem K (.dict (arrivedDict cls A attrs)) = .ok (.exc ⟨cls, args, attrs⟩) := by
   unfold recreateItem
   simp only [lookup_arrived_class, Option.isSome_some, if_true]
@@ -346,7 +346,7 @@ theorem recreate_arrived (K : ClientEnv) (cls : Str) (A : Val) (args : List Val)
 theorem clientInvoke_arrived {W : Type} (K : ClientEnv) (c : Codec W) (batch bflag : Bool) (w : W) (cls : Str) (A : Val)
     (args : List Val) (attrs : Dict) (hl : c.loads w = some (.dict (arrivedDict cls A attrs)))
     (hA : A = .list args ∨ A = .tuple args) (hres : resolves K.names cls = some cls)
-    (hctor : K.ctor cls args = .ok args) (hnd : (keys attrs).Nodup) :
+    (hctor : K.ctor cls args = .ok (cls, args)) (hnd : (keys attrs).Nodup) :
     clientInvoke K c batch (some ⟨true, bflag, w⟩) = raisedBy K ⟨cls, args, attrs⟩ := by
   unfold clientInvoke
   simp only [hl]
@@ -443,7 +443,7 @@ theorem wrapperTag_facts : hasDunder wrapperTag = false ∧ wrapperTag ∉ fixed
 theorem recreate_wrapper (K : ClientEnv) (cls : Str) (A : Val) (args : List Val) (attrs : Dict)
     (hreg : wrapperTag ∉ K.names.registry)
     (hA : A = .list args ∨ A = .tuple args) (hres : resolves K.names cls = some cls)
-    (hctor : K.ctor cls args = .ok args) (hnd : (keys attrs).Nodup) :
+    (hctor : K.ctor cls args = .ok (cls, args)) (hnd : (keys attrs).Nodup) :
     recreateItem K (.dict (arrivedWrapper (arrivedDict cls A attrs))) = .ok (.wrapper ⟨cls, args, attrs⟩) := by
   obtain ⟨w1, w2, w3, w4, w5⟩ := wrapperTag_facts
   have hk : lookup kClass (arrivedWrapper (arrivedDict cls A attrs)) = some (.str wrapperTag) := by
